@@ -210,7 +210,7 @@ def run_and_validate(run, sessions, label, keys=False, timeouts_reproduce=False,
     hung_confirmed = set()
     for sid, evs, idx in rejected:
         sess = by_id.get(sid)
-        if any(e.get("ev") == "timeout" for e in evs) and sid not in hung_confirmed:
+        if any(e.get("ev") == "timeout" for e in evs) and not hung_confirmed:
             if not timeouts_reproduce:
                 raise Infra("session %s hit the driver watchdog (not a verdict): %s" % (sid, json.dumps(sess)[:400]))
             # a hang is a verdict only if the same session hangs again, alone, with ten times the budget
